@@ -23,7 +23,7 @@ mod gen_c16;
 #[cfg(all(kani, feature = "c16"))]
 mod gen_swizzle;
 
-#[cfg(all(kani, any(feature = "c16", feature = "c19")))]
+#[cfg(all(kani, feature = "c16"))]
 pub mod c16;
 #[cfg(all(kani, feature = "c19"))]
 pub mod c19;
